@@ -151,6 +151,10 @@ type ClientOpts struct {
 	FilterCache   uint64
 	BlockCache    uint64
 	Dir           string // reuse an existing data directory
+	// BroadcastTimeout is neutrino.Config.BroadcastTimeout (0 = the client's
+	// default of 5 s): how long sendTransaction waits for peers that never
+	// react to its inv.
+	BroadcastTimeout time.Duration
 }
 
 // StartClient creates and starts the real ChainService connected to the
@@ -184,6 +188,8 @@ func (w *World) StartClient(addrs []string, o ClientOpts) error {
 		PersistToDisk:   o.PersistToDisk,
 		FilterCacheSize: o.FilterCache,
 		BlockCacheSize:  o.BlockCache,
+
+		BroadcastTimeout: o.BroadcastTimeout,
 	})
 	if err != nil {
 		_ = db.Close()
